@@ -24,7 +24,6 @@ from hed.validator.hed_validator import HedValidator
 from hed.validator.util.char_util import CharRexValidator
 from hed.errors.error_types import ErrorSeverity
 
-R.known = lambda fid, verdict: bool(verdict)  # TEMP-TEST
 chx.install()
 chre_dollar.install()   # `$` also matches before one trailing newline (CrossHair's model misses it)
 chfloat.install()       # float(<symbolic text>): acceptance exact, value abstracted (see vp/chfloat.py)
@@ -55,6 +54,9 @@ NVC = len(_VC) + 1
 # the same for a bare value (no blank inside)
 _VB = ["0", "1", "+", "-", ".", "e"]
 NVB = len(_VB) + 1
+# ... and for the first part of `M/<a> <b>` (a may be the prefix unit)
+_VP = _VC + ["$"]
+NVP = len(_VP) + 1
 
 
 def _head(t, head):
@@ -102,9 +104,11 @@ def _blank(t):
     return t.rfind(" ")
 
 
-def _ab_shape(t, head, amax, bmax):
+def _ab_shape(t, head, amax, bmax, classes=None):
     """t == head + a + " " + b with len(head) == 2, b non-empty and blank-free, no "/" in a or b; cell VP_LV / VP_LU
     (exact lengths of a, b) / VP_CV (class of a[0])"""
+    if classes is None:
+        classes = _VC
     if not _head(t, head):
         return False
     k = _blank(t)
@@ -118,25 +122,26 @@ def _ab_shape(t, head, amax, bmax):
     if lu is not None and lb != lu:
         return False
     cv = R.env_int("VP_CV")
-    if cv is not None and (la < 1 or R.cls_of(t[2], _VC) != cv):
+    if cv is not None and (la < 1 or R.cls_of(t[2], classes) != cv):
         return False
     cv = R.env_int("VP_CV1")
-    if cv is not None and (la < 2 or R.cls_of(t[3], _VC) != cv):
+    if cv is not None and (la < 2 or R.cls_of(t[3], classes) != cv):
         return False
     return _none_of(t, k + 1, " ") and _none_of(t, 2, "/")
 
 
-def _ab_cells(pairs, split_a_from=None, split_b_from=99, split2_a_from=99):
+def _ab_cells(pairs, split_a_from=None, split_b_from=99, split2_a_from=99, nclass=None):
     """one cell per (len a, len b) pair; cells with len(a) >= split_a_from or len(b) >= split_b_from (and a non-empty)
     are split by the class of a[0]; cells with len(a) >= split2_a_from by the classes of a[0] and a[1]"""
     out = []
+    nclass = nclass or NVC
     for la, lb in pairs:
         if la >= max(2, split2_a_from):
-            for i in range(NVC):
-                for j in range(NVC):
+            for i in range(nclass):
+                for j in range(nclass):
                     out.append({"VP_LV": la, "VP_LU": lb, "VP_CV": i, "VP_CV1": j})
         elif la >= 1 and ((split_a_from is not None and la >= split_a_from) or lb >= split_b_from):
-            for i in range(NVC):
+            for i in range(nclass):
                 out.append({"VP_LV": la, "VP_LU": lb, "VP_CV": i})
         else:
             out.append({"VP_LV": la, "VP_LU": lb})
@@ -264,7 +269,7 @@ def value_unit_agree(t: str) -> bool:
 
 def prefix_unit_agree(t: str) -> bool:
     """
-    pre: _ab_shape(t, "M/", 4, 8)
+    pre: _ab_shape(t, "M/", 4, 8, _VP)
     pre: R.ascii_printable(t)
     pre: not R.known("C11-name-case-conversion", _kf_case(_TU, "currencyUnits", t[_blank(t) + 1:]))
     pre: not R.known("C11-junk-before-unit", _kf_junk(_TU, "currencyUnits", t[2:_blank(t)], t[_blank(t) + 1:]))
@@ -359,12 +364,11 @@ HARNESSES = [
              "value_as_default_unit does not raise and returns a float iff the unit declares a conversion factor",
         oracle="models/units_ref.py Table.match, is_number", stubs=_STUBS, outside=_OUT),
     R.H("prefix_unit_agree", _TT,
-        quick=R.tier(cells=_ab_cells(_grid(1, 2, 2) + [(1, 4)], split_a_from=2, split_b_from=4), timeout=300,
+        quick=R.tier(cells=_ab_cells(_grid(1, 2, 2), split_a_from=2, nclass=NVP), timeout=300,
                      bound="tag `M/<a> <b>` on MINI_U (M/# takes the real currencyUnits: $ {unitPrefix}, dollar, euro, "
-                           "point), printable ASCII without '/', b blank-free: 1 <= len(a) <= 2 and 1 <= len(b) <= 2, or "
-                           "len(a) == 1 and len(b) == 4"),
-        thorough=R.tier(cells=_ab_cells(_grid(1, 2, 2) + [(3, 1), (1, 4), (2, 4)], split_a_from=1, split2_a_from=3),
-                        timeout=1500, path_timeout=60,
+                           "point), printable ASCII without '/', b blank-free: 1 <= len(a) <= 2 and 1 <= len(b) <= 2"),
+        thorough=R.tier(cells=_ab_cells(_grid(1, 2, 2) + [(3, 1), (1, 4), (2, 4)], split_a_from=1, split2_a_from=3,
+                                        nclass=NVP), timeout=1500, path_timeout=60,
                         bound="same: 1 <= len(a) <= 2 and 1 <= len(b) <= 2, or (len a, len b) in (3,1),(1,4),(2,4)"),
         what="same agreement where the unit class has a prefix unit: accepted <=> (a is a number and b spells a unit "
              "written behind the number) or (a spells a unitPrefix unit and b is a number); `3 $` and `dollar 3` are "
